@@ -43,6 +43,9 @@ def static_ops():
     for m in METHODS:
         for once in (False, True):
             ops.append(('add', 1, m, 'result', once))
+    # a callback that raises (e.g. an assertion on the arguments): the call is still matched, rotated and recorded
+    ops.append(('add', 0, 'm0', 'cbraise', False))
+    ops.append(('add', 0, 'm1', 'cbraise', True))
     for e in (0, 1):
         for m in METHODS:
             ops.append(('call', e, m, 'pos'))
@@ -104,6 +107,8 @@ def ref_apply(state, calls, op, n, passthrough):
             return ('result', 'r%d' % pn)
         if pk == 'error':
             return ('error', 1000 + pn)
+        if pk == 'cbraise':
+            return ('exc', 'RuntimeError', 'cbraise %d' % pn)
         return ('result', ['cb%d' % pn, args])
 
     if kind == 'add':
@@ -132,6 +137,8 @@ def ref_apply(state, calls, op, n, passthrough):
         m = op[2]
         args = ('kw', {'a': n}) if (kind == 'call' and op[3] == 'named') else ('pos', [n])
         a = answer(e, m, args)
+        if a[0] == 'exc':
+            return st, cl, a
         if kind == 'notify':
             # a notification is matched and recorded like a call; the client gets nothing back (non-strict client)
             return st, cl, ('notified',)
@@ -139,7 +146,10 @@ def ref_apply(state, calls, op, n, passthrough):
     if kind == 'batch':
         out = []
         for i, m in enumerate(op[2]):
-            out.append(answer(e, m, ('pos', [n, i])))
+            a = answer(e, m, ('pos', [n, i]))
+            if a[0] == 'exc':
+                return st, cl, a          # the exception of a callback aborts the delivery: later elements are not processed
+            out.append(a)
         return st, cl, ('batch', out)
     raise AssertionError(op)
 
@@ -165,6 +175,12 @@ def canon_norm(st):
 
 
 # ---- real system ------------------------------------------------------------------------------------------------------
+def make_raising_cb(n):
+    def cb(*args, **kwargs):
+        raise RuntimeError('cbraise %d' % n)
+    return cb
+
+
 def make_cb(n):
     def cb(*args, **kwargs):
         return ['cb%d' % n, ['kw', kwargs] if kwargs else ['pos', list(args)]]
@@ -176,7 +192,8 @@ def real_apply(kind, mocker, cls, op, n):
     k = op[0]
     if k == 'add':
         _, e, m, pk, once = op
-        kw = dict(result='r%d' % n) if pk == 'result' else (dict(error=JsonRpcError(1000 + n, 'e%d' % n)) if pk == 'error' else dict(callback=make_cb(n)))
+        kw = dict(result='r%d' % n) if pk == 'result' else (dict(error=JsonRpcError(1000 + n, 'e%d' % n)) if pk == 'error' else
+                                                           dict(callback=make_raising_cb(n) if pk == 'cbraise' else make_cb(n)))
         mocker.add(EPS[e], m, once=once, **kw)
         return None
     if k == 'replace':
@@ -235,6 +252,8 @@ def real_apply(kind, mocker, cls, op, n):
         r = drive(lambda: client.send(Request(op[2], [n])))
         if r == 'REFUSED':
             return ('refused',)
+        if isinstance(r, tuple) and r and r[0] == 'exc':
+            return r
         return ('notified',) if r is None else ('notify-returned', repr(r)[:80])
     if k == 'batch':
         reqs = [Request(m, [n, i], id=10 + i) for i, m in enumerate(op[2])]
